@@ -281,10 +281,22 @@ func (r *Rng) DischargeRequest() *auth.DischargeRequest {
 		dr.Flyio = append(dr.Flyio, f)
 	}
 	for i, n := 0, r.Intn(3); i < n; i++ {
-		dr.Google = append(dr.Google, &auth.GoogleAuth{HD: r.str()})
+		// the fields the conditions must not look at (e-mail, user ids, login) are drawn too and
+		// stay off the op line: the model answers from the hosted domain and the org ids alone
+		g := &auth.GoogleAuth{HD: r.str()}
+		if r.Chance(2, 3) {
+			g.Email = pick(r, []string{"u", "mallory", ""}) + "@" + r.str()
+		} else if r.Bool() {
+			g.Email = r.str()
+		}
+		if r.Bool() {
+			u := auth.GoogleUserID(*new(big.Int).SetBytes(r.Bytes(r.Intn(12))))
+			g.UserID = &u
+		}
+		dr.Google = append(dr.Google, g)
 	}
 	for i, n := 0, r.Intn(3); i < n; i++ {
-		g := &auth.GitHubAuth{}
+		g := &auth.GitHubAuth{UserID: r.id(), Login: r.str()}
 		for j, m := 0, r.Intn(3); j < m; j++ {
 			g.OrgIDs = append(g.OrgIDs, r.id())
 		}
